@@ -57,6 +57,8 @@ def check(chk, fx):
     ownrules.fcopy(chk, fx, 100)      # "each rule's functor is called": the stored object, not a copy of it
     from .. import cexrules
     cexrules.buf(chk, fx)             # the three buffer classes: begin / end / get_view mean the same slice
+    from .. import primrules
+    primrules.prims(chk, fx, "CVEC2", "BUFIT", "TVAL", "UTIL", "GAPI")
     lr.all_table_rules(chk, fx)
     tix.report(chk, fx)
     idxrule.report(chk, fx, lambda q: q.startswith(P) or q.startswith("ctpg::detail::value_reductors"),
